@@ -387,4 +387,287 @@ theorem lbfgs_rescale_scales_direction (c : LbfgsCfg α) (hr : c.rescale = true)
   simp only [hcv, true_or, if_true, dot_smul_left, dot_smul_right]
   rw [key _ hf]
 
+/-! ## §3 StructuredLBFGSDirection -/
+
+/-- `update` offers `s = xₙₑₓₜ − xₖ`, `y = ∇ψ(xₙₑₓₜ) − ∇ψ(xₖ)` and *forces* the pair in. -/
+theorem slbfgs_update_pair (c : SCfg α) (st : State α) (γk γn : α) (xk xn pk pn gk gn : Vec α) :
+    SLbfgs.update c st γk γn xk xn pk pn gk gn =
+      updateSy c.accel st (vsub xn xk) (vsub gn gk)
+        (if cbfgsEnabled c.accel.cbfgsAlpha c.accel.cbfgsEps then sqNorm gn else 0) true := rfl
+
+/-- … so every pair is stored, whatever its curvature (the acceptance test is re-done per index
+    set in `apply_masked`). -/
+theorem slbfgs_update_always_stored (c : SCfg α) (st : State α) (γk γn : α)
+    (xk xn pk pn gk gn : Vec α) : (SLbfgs.update c st γk γn xk xn pk pn gk gn).2 = true := by
+  rw [slbfgs_update_pair, Props.C09.stored_iff]; exact Or.inl rfl
+
+/-- `changed_γ` does nothing (the Hessian approximation of ψ does not depend on the step size);
+    `reset` flushes. -/
+theorem slbfgs_changedGamma_reset (st : State α) (γ old : α) :
+    SLbfgs.changedGamma st γ old = st ∧ (SLbfgs.reset st).abs = [] :=
+  ⟨rfl, Props.C09.reset_abs st⟩
+
+/-- `initialize`: throws when the argument checks fail (`slbfgsInitThrows_iff`) or `memory < 1`,
+    otherwise an empty history. -/
+theorem slbfgs_init (P : SProblem α) (c : SCfg α) (st : State α)
+    (hok : slbfgsInitThrows c.hvf c.fd c.fullAug P.provInactive P.provHessL P.provHessPsi P.provBoxD
+      P.provGradGi = false) (hm : 1 ≤ c.accel.memory) :
+    ∃ s, SLbfgs.init P c st = .ok s ∧ Props.C09.Good c.accel s ∧ s.abs = [] ∧ s.n = P.n := by
+  obtain ⟨s, e, hI, ha, hmm, hn⟩ := (Props.C09.resize_spec c.accel P.n).2 hm
+  refine ⟨s, by simp [SLbfgs.init, hok, e], ⟨hI, hmm, ?_⟩, ha, hn⟩
+  intro cc hcc
+  have : s.pairs = [] := by simpa [State.abs] using ha
+  simp [this] at hcc
+
+/-- **No inactive index** (`J = ∅`): no Newton-type step is possible, `apply` fails and touches
+    neither `q` nor the buffer. -/
+theorem slbfgs_apply_no_free (P : SProblem α) (c : SCfg α) (st : State α) (γ : α)
+    (x xh p g q0 : Vec α) (hJ : P.inactive γ x g = []) :
+    SLbfgs.apply P c st γ x xh p g q0 = .done st false q0 := by
+  simp [SLbfgs.apply, hJ, slbfgsNoFree]
+
+/-- **All indices inactive** (`K = ∅`, `n ≠ 0`): plain L-BFGS on `(1/γ)·p` (= `−∇ψ` on inactive
+    indices): `q = H·(p/γ)` with the C09 dense operator of the stored pairs. -/
+theorem slbfgs_apply_all_free (P : SProblem α) (c : SCfg α) (st : State α)
+    (hG : Props.C09.Good c.accel st) (hne : st.isEmpty = false) (γ : α) (x xh p g q0 : Vec α)
+    (hJ : (P.inactive γ x g).length = P.n) (hn : P.n ≠ 0) :
+    ∃ st', SLbfgs.apply P c st γ x xh p g q0 =
+        .done st' true (H (applyGamma c.accel st γ) st.abs (smul (1 / γ) p)) ∧ st'.abs = st.abs := by
+  obtain ⟨hI, hm, hρ⟩ := hG
+  have h := Props.C09.apply_eq_dense c.accel st hI hρ (smul (1 / γ) p) γ hne
+  refine ⟨(C09.apply c.accel st (smul (1 / γ) p) γ).1, ?_, Props.C09.apply_abs _ _ _ _⟩
+  have h0 : (P.n == 0) = false := by simpa using hn
+  simp only [SLbfgs.apply, slbfgsNoFree, slbfgsAllFree, hJ, h0, beq_self_eq_true, if_true,
+    Bool.false_eq_true, if_false, (slbfgs_kernels γ 0 0 0 0 x xh p g q0).1,
+    (slbfgs_kernels γ 0 0 0 0 x xh p g q0).2.2.2.2.2.2.1]
+  rw [h.1, h.2]
+
+/-- … with an empty buffer it fails (no fallback is applied in this branch: the failure policy is
+    only consulted after `apply_masked`), leaving `q = p/γ`. -/
+theorem slbfgs_apply_all_free_empty (P : SProblem α) (c : SCfg α) (st : State α)
+    (he : st.isEmpty = true) (γ : α) (x xh p g q0 : Vec α)
+    (hJ : (P.inactive γ x g).length = P.n) (hn : P.n ≠ 0) :
+    SLbfgs.apply P c st γ x xh p g q0 = .done st false (smul (1 / γ) p) := by
+  have h0 : (P.n == 0) = false := by simpa using hn
+  simp only [SLbfgs.apply, slbfgsNoFree, slbfgsAllFree, hJ, h0, beq_self_eq_true, if_true,
+    Bool.false_eq_true, if_false, (slbfgs_kernels γ 0 0 0 0 x xh p g q0).1,
+    (slbfgs_kernels γ 0 0 0 0 x xh p g q0).2.2.2.2.2.2.1, Props.C09.apply_empty _ _ _ _ he]
+
+/-- The vector whose Hessian product is taken: `p` on the active indices `K`, zero on `J`. -/
+theorem slbfgs_hv_input (J : List Nat) (p : Vec α) (hnd : J.Nodup) (hlt : ∀ j ∈ J, j < p.length)
+    (j : Nat) : vget (SLbfgs.setJ J (fun _ => (0 : α)) p) j = if j ∈ J then 0 else vget p j := by
+  split_ifs with h
+  · exact setJ_hit J _ p hnd hlt j h
+  · exact setJ_frame J _ p j h
+
+/-- **Fixed part**: on the active indices `K = {j ∉ J}` the right-hand side — and, because
+    `apply_masked` only touches `J`, the returned direction — is `q_j = p_j` (the projected-gradient
+    step). -/
+theorem slbfgs_rhs_K (P : SProblem α) (c : SCfg α) (γ : α) (x xh p g : Vec α) (J : List Nat)
+    (j : Nat) (hj : j ∉ J) : vget (SLbfgs.rhs P c γ x xh p g J) j = vget p j := by
+  unfold SLbfgs.rhs
+  simp only [(slbfgs_kernels γ 0 0 0 0 x xh p g p).2.1]
+  split_ifs <;> simp only [setJ_frame _ _ _ _ hj]
+
+/-- **Free part of the right-hand side**: for `j ∈ J`,
+    `(1/γ)·p_j − hessian_vec_factor · (∇²ψ q_K)_j` (the correction only when the factor is non-zero);
+    `q_K` is `slbfgs_hv_input`, the product `approxHessVec`. -/
+theorem slbfgs_rhs_J (P : SProblem α) (c : SCfg α) (γ : α) (x xh p g : Vec α) (J : List Nat)
+    (hnd : J.Nodup) (hlt : ∀ j ∈ J, j < p.length) (j : Nat) (hj : j ∈ J) :
+    vget (SLbfgs.rhs P c γ x xh p g J) j =
+      if c.hvf = 0 then 1 / γ * vget p j
+      else 1 / γ * vget p j -
+        c.hvf * vget (SLbfgs.approxHessVec P c x g (SLbfgs.setJ J (fun _ => 0) p) J) j := by
+  unfold SLbfgs.rhs
+  simp only [(slbfgs_kernels γ 0 0 0 0 x xh p g p).2.1, slbfgsHessEnabled]
+  by_cases h0 : c.hvf = 0
+  · simp only [h0, bne_self_eq_false, Bool.false_eq_true, if_false, if_true]
+    rw [setJ_hit J _ p hnd hlt j hj]; rfl
+  · have : (c.hvf != 0) = true := by simpa using h0
+    simp only [this, if_true, h0, if_false]
+    rw [setJ_hit J _ _ hnd (by rw [setJ_length]; exact hlt) j hj]; rfl
+
+theorem slbfgs_rhs_length (P : SProblem α) (c : SCfg α) (γ : α) (x xh p g : Vec α) (J : List Nat) :
+    (SLbfgs.rhs P c γ x xh p g J).length = p.length := by
+  unfold SLbfgs.rhs
+  simp only [(slbfgs_kernels γ 0 0 0 0 x xh p g p).2.1]
+  split_ifs <;> simp only [setJ_length]
+
+/-- Which product `approxHessVec` is: finite differences of `∇ψ`, the Lagrangian's Hessian, the
+    problem's `eval_hess_ψ_prod`, or the Lagrangian's Hessian plus the penalty terms. -/
+theorem slbfgs_approxHessVec_cases (P : SProblem α) (c : SCfg α) (x g v : Vec α) (J : List Nat) :
+    SLbfgs.approxHessVec P c x g v J =
+      if c.fd then fdHessProd P.gradPsi c.cbrtEps x g v
+      else if !c.fullAug then P.hessLProd x v
+      else if P.provHessPsi then P.hessPsiProd x v
+      else SLbfgs.penaltyLoop P x v J (P.hessLProd x v) := by
+  unfold SLbfgs.approxHessVec
+  simp only [slbfgs_hv_selection]
+  cases c.fd <;> cases hfa : c.fullAug <;> cases P.provHessPsi <;> simp
+
+/-- What the failure `switch` leaves in `q`: nothing changes under
+    `FallbackToProjectedGradient`; under `UseScaledLBFGSInput` the `J` entries are multiplied by `γ`
+    (so `q_J = p_J − γ·hvf·(∇²ψ q_K)_J` when `apply_masked` had not modified them) and the `K`
+    entries stay. -/
+theorem slbfgs_fallback (c : SCfg α) (n : Nat) (γ : α) (J : List Nat) (q : Vec α) :
+    (c.policy = .FallbackToProjectedGradient → SLbfgs.fallback c n γ J q = q) ∧
+    (c.policy = .UseScaledLBFGSInput → J.length ≠ n → J.Nodup → (∀ j ∈ J, j < q.length) →
+      (∀ j ∈ J, vget (SLbfgs.fallback c n γ J q) j = vget q j * γ) ∧
+      (∀ j, j ∉ J → vget (SLbfgs.fallback c n γ J q) j = vget q j)) := by
+  constructor
+  · intro h; simp [SLbfgs.fallback, h, slbfgsFailureScales]
+  · intro h hn hnd hlt
+    have hne : (J.length == n) = false := by simpa using hn
+    simp only [SLbfgs.fallback, h, slbfgsFailureScales, slbfgsFailureScaleAll, hne, if_true,
+      Bool.false_eq_true, if_false]
+    exact ⟨fun j hj => by rw [setJ_hit J _ q hnd hlt j hj]; rfl, fun j hj => setJ_frame J _ q j hj⟩
+
+/-- **Free part of the direction**: with active *and* inactive indices present, CBFGS off, `J`
+    duplicate-free and in range, a non-empty buffer: `apply_masked` is called on the corrected
+    right-hand side; it succeeds iff its scaling `γ_m` is not negative, and then
+    `q_J = H(γ_m; history restricted to J) · rhs_J` — the masked L-BFGS system of C09 (e) — while
+    `q_K = p_K`.  Otherwise the failure policy decides: the returned flag is
+    `slbfgsFailureReturn`, `q` is `fallback` of what `apply_masked` left. -/
+theorem slbfgs_apply_partial (P : SProblem α) (c : SCfg α) (st : State α) (hI : Inv st)
+    (hne : st.isEmpty = false) (γ : α) (x xh p g q0 : Vec α)
+    (hcb : cbfgsEnabled c.accel.cbfgsAlpha c.accel.cbfgsEps = false)
+    (hnn : ∀ a : α, RealLike.isNaN a = false) (hp : p.length = P.n)
+    (hJ0 : P.inactive γ x g ≠ []) (hJn : (P.inactive γ x g).length ≠ P.n)
+    (hnd : (P.inactive γ x g).Nodup) (hlt : ∀ j ∈ P.inactive γ x g, j < P.n) :
+    ∃ st' q' ok, C09.applyMasked c.accel st (SLbfgs.rhs P c γ x xh p g (P.inactive γ x g)) γ
+          (P.inactive γ x g) = .done st' q' ok ∧ st'.abs = st.abs ∧
+      ok = decide (¬ Props.C09.maskedGamma c.accel st (SLbfgs.rhs P c γ x xh p g (P.inactive γ x g)) γ
+                      (P.inactive γ x g) < 0) ∧
+      (ok = true →
+        SLbfgs.apply P c st γ x xh p g q0 = .done st' true q' ∧
+        G false (P.inactive γ x g) q' =
+          H (Props.C09.maskedGamma c.accel st (SLbfgs.rhs P c γ x xh p g (P.inactive γ x g)) γ
+              (P.inactive γ x g))
+            (Props.C09.restrictHist c.accel false (P.inactive γ x g) st.abs)
+            (G false (P.inactive γ x g) (SLbfgs.rhs P c γ x xh p g (P.inactive γ x g))) ∧
+        ∀ j, j ∉ P.inactive γ x g → vget q' j = vget p j) ∧
+      (ok = false →
+        SLbfgs.apply P c st γ x xh p g q0 =
+          .done st' (slbfgsFailureReturn c.policy false) (SLbfgs.fallback c P.n γ (P.inactive γ x g) q')) := by
+  have hlen := slbfgs_rhs_length P c γ x xh p g (P.inactive γ x g)
+  have hfJ : ((SLbfgs.rhs P c γ x xh p g (P.inactive γ x g)).length == (P.inactive γ x g).length) = false := by
+    rw [hlen, hp]; simpa using fun h => hJn h.symm
+  have hJOK : JOK ((SLbfgs.rhs P c γ x xh p g (P.inactive γ x g)).length == (P.inactive γ x g).length)
+      (P.inactive γ x g) (SLbfgs.rhs P c γ x xh p g (P.inactive γ x g)).length :=
+    fun _ => ⟨hnd, fun j hj => by rw [hlen, hp]; exact hlt j hj⟩
+  obtain ⟨q', hout, hsp⟩ := Props.C09.applyMasked_eq_restricted c.accel st hI _ γ _ hne hcb hnn hJOK
+  have h0 : ((P.inactive γ x g).length == 0) = false := by
+    simpa using fun h => hJ0 (List.length_eq_zero_iff.mp h)
+  have hnn' : ((P.inactive γ x g).length == P.n) = false := by simpa using hJn
+  have habs := Props.C09.applyMasked_abs c.accel st (SLbfgs.rhs P c γ x xh p g (P.inactive γ x g)) γ
+    (P.inactive γ x g)
+  cases hm : C09.applyMasked c.accel st (SLbfgs.rhs P c γ x xh p g (P.inactive γ x g)) γ
+      (P.inactive γ x g) with
+  | threw => rw [hm] at hout; simp [Props.C09.maskedOut] at hout
+  | done st' q'' ok =>
+    rw [hm] at hout habs
+    simp only [Props.C09.maskedOut, Option.some.injEq, Prod.mk.injEq] at hout
+    obtain ⟨rfl, rfl⟩ := hout
+    simp only [Props.C09.maskedState] at habs
+    refine ⟨st', q'', _, rfl, habs, rfl, ?_, ?_⟩
+    · intro hok
+      have hγ : ¬ Props.C09.maskedGamma c.accel st (SLbfgs.rhs P c γ x xh p g (P.inactive γ x g)) γ
+          (P.inactive γ x g) < 0 := by simpa using hok
+      obtain ⟨hG, hoff⟩ := hsp hγ
+      rw [hfJ] at hG
+      refine ⟨?_, hG, fun j hj => ?_⟩
+      · simp only [SLbfgs.apply, slbfgsNoFree, slbfgsAllFree, h0, hnn', Bool.false_eq_true, if_false,
+          (slbfgs_kernels γ 0 0 0 0 x xh p g q0).2.2.2.2.2.2.2, hm, hok, if_true]
+      · rw [hoff hfJ j hj, slbfgs_rhs_K P c γ x xh p g _ j hj]
+    · intro hok
+      simp only [SLbfgs.apply, slbfgsNoFree, slbfgsAllFree, h0, hnn', Bool.false_eq_true, if_false,
+        (slbfgs_kernels γ 0 0 0 0 x xh p g q0).2.2.2.2.2.2.2, hm, hok]
+
+/-- the first loop of `apply_masked` leaves `q` alone when no visited pair is valid on `J` -/
+theorem mrev_q_no_valid (p : C09.Params α) (fJ : Bool) (J : List Nat) (slots : List (Slot α))
+    (is : List Nat) (a : MaskAcc α)
+    (h : ∀ i ∈ is, validJ p fJ J (slots.getD i default) = false) :
+    (is.foldl (maskedRevStep p fJ J slots) a).q = a.q := by
+  induction is generalizing a with
+  | nil => rfl
+  | cons i is ih =>
+    rw [List.foldl_cons, ih _ (fun k hk => h k (List.mem_cons_of_mem _ hk))]
+    have hv := h i (List.mem_cons_self)
+    unfold validJ at hv
+    unfold maskedRevStep
+    simp only [hv, Bool.not_false, if_true]
+
+/-- `apply_masked` with no stored pair valid on `J` and no usable external scaling (curvature
+    policy, or `γ < 0`): it fails and has not touched `q`. -/
+theorem applyMasked_no_valid (p : C09.Params α) (st : State α) (hI : Inv st) (q : Vec α) (γ : α)
+    (J : List Nat) (hne : st.isEmpty = false) (hcb : cbfgsEnabled p.cbfgsAlpha p.cbfgsEps = false)
+    (hv : ∀ c ∈ st.pairs, validJ p (q.length == J.length) J c = false)
+    (hγ : (if p.curvature then (-1 : α) else γ) < 0) :
+    ∃ st', C09.applyMasked p st q γ J = .done st' q false ∧ st'.abs = st.abs := by
+  have hmap : (st.revIdx.map fun i => st.slots.getD i default) = st.pairs.reverse :=
+    revIdx_map_slot st hI
+  have hvi : ∀ i ∈ st.revIdx, validJ p (q.length == J.length) J (st.slots.getD i default) = false := by
+    intro i hi
+    apply hv
+    have : st.slots.getD i default ∈ st.pairs.reverse := by
+      rw [← hmap]; exact List.mem_map.mpr ⟨i, hi, rfl⟩
+    exact List.mem_reverse.mp this
+  have hq := mrev_q_no_valid p (q.length == J.length) J st.slots st.revIdx
+    ⟨st.al, List.replicate st.al.length false, q, if p.curvature then -1 else γ⟩ hvi
+  have hg := mrev_gamma p (q.length == J.length) J st.slots st.revIdx
+    ⟨st.al, List.replicate st.al.length false, q, if p.curvature then -1 else γ⟩
+  rw [hmap, mGamma_no_valid _ _ _ _ _ (fun c hc => hv c (List.mem_reverse.mp hc))] at hg
+  simp only [] at hq hg
+  have key : C09.applyMasked p st q γ J =
+      .done { st with al := (st.revIdx.foldl (maskedRevStep p (q.length == J.length) J st.slots)
+        ⟨st.al, List.replicate st.al.length false, q, if p.curvature then -1 else γ⟩).al } q false := by
+    simp only [C09.applyMasked, hne, hcb, Bool.false_eq_true, if_false]
+    rw [if_pos (by rw [hg]; exact hγ), hq]
+  exact ⟨_, key, rfl⟩
+
+/-- **Failure policy, the documented case**: active and inactive indices present, no stored pair
+    valid on `J` (e.g. no positive curvature there), curvature-based scaling.  `apply_masked`
+    fails with `q` still the right-hand side, so
+    `FallbackToProjectedGradient` → `apply` fails (PANOC takes the projected-gradient step);
+    `UseScaledLBFGSInput` → `apply` succeeds with `q_K = p_K`,
+    `q_j = ((1/γ)p_j − hvf·(∇²ψ q_K)_j)·γ` for `j ∈ J` (i.e. `H_JJ ≈ γI`). -/
+theorem slbfgs_apply_failure_no_valid (P : SProblem α) (c : SCfg α) (st : State α) (hI : Inv st)
+    (hne : st.isEmpty = false) (γ : α) (x xh p g q0 : Vec α)
+    (hcb : cbfgsEnabled c.accel.cbfgsAlpha c.accel.cbfgsEps = false) (hp : p.length = P.n)
+    (hJ0 : P.inactive γ x g ≠ []) (hJn : (P.inactive γ x g).length ≠ P.n)
+    (hv : ∀ cc ∈ st.pairs, validJ c.accel false (P.inactive γ x g) cc = false)
+    (hγ : (if c.accel.curvature then (-1 : α) else γ) < 0) :
+    ∃ st', SLbfgs.apply P c st γ x xh p g q0 =
+      .done st' (slbfgsFailureReturn c.policy false)
+        (SLbfgs.fallback c P.n γ (P.inactive γ x g) (SLbfgs.rhs P c γ x xh p g (P.inactive γ x g))) ∧
+      st'.abs = st.abs := by
+  have hlen := slbfgs_rhs_length P c γ x xh p g (P.inactive γ x g)
+  have hfJ : ((SLbfgs.rhs P c γ x xh p g (P.inactive γ x g)).length == (P.inactive γ x g).length) = false := by
+    rw [hlen, hp]; simpa using fun h => hJn h.symm
+  obtain ⟨st', hm, ha⟩ := applyMasked_no_valid c.accel st hI (SLbfgs.rhs P c γ x xh p g (P.inactive γ x g))
+    γ (P.inactive γ x g) hne hcb (by rw [hfJ]; exact hv) hγ
+  have h0 : ((P.inactive γ x g).length == 0) = false := by
+    simpa using fun h => hJ0 (List.length_eq_zero_iff.mp h)
+  have hnn' : ((P.inactive γ x g).length == P.n) = false := by simpa using hJn
+  refine ⟨st', ?_, ha⟩
+  simp only [SLbfgs.apply, slbfgsNoFree, slbfgsAllFree, h0, hnn', Bool.false_eq_true, if_false,
+    (slbfgs_kernels γ 0 0 0 0 x xh p g q0).2.2.2.2.2.2.2, hm]
+
+/-- **`J` / `K` partition of a `BoxConstrProblem`** (from C15): the index list the structured
+    provider works with is strictly increasing (so duplicate-free), in range, and contains `i` exactly
+    when the C15 kernel says component `i` of the forward step is strictly inside the (ℓ1-shifted)
+    box — by `Props.C15.inactiveIndices_iff_locally_shift` exactly the components where the proximal
+    mapping is locally a translation. -/
+theorem slbfgs_box_partition (l1 lb ub : Vec α) (γ : α) (x g : Vec α) :
+    (boxInactive l1 lb ub γ x g).Pairwise (· < ·) ∧ (boxInactive l1 lb ub γ x g).Nodup ∧
+    (∀ j ∈ boxInactive l1 lb ub γ x g, j < x.length) ∧
+    (∀ i, i ∈ boxInactive l1 lb ub γ x g ↔
+      i < x.length ∧ C15.inactiveGeneral (Props.C15.lamAt l1 i) γ (vget lb i) (vget ub i)
+        (vget x i - γ * vget g i) = true) ∧
+    JOK false (boxInactive l1 lb ub γ x g) x.length := by
+  have hs := Props.C15.inactiveIndices_sorted l1 γ x g lb ub
+  have hnd : (boxInactive l1 lb ub γ x g).Nodup := hs.imp (fun h => Nat.ne_of_lt h)
+  have hm := Props.C15.mem_inactiveIndices_iff l1 γ x g lb ub
+  exact ⟨hs, hnd, fun j hj => ((hm j).mp hj).1, hm, fun _ => ⟨hnd, fun j hj => ((hm j).mp hj).1⟩⟩
+
 end Alpaqa.Props.Directions
